@@ -447,6 +447,14 @@ func zzShapeC03(n int) (*zzGraph, []string) {
 			{Name: "P", Deps: []string{"D"}, Cmds: []zzCmd{probe}},
 			{Name: "D", Cmds: []zzCmd{probe}},
 		}}, []string{"R"}
+	case 6: // a shared run-once task whose first caller has a failing sibling, and a second caller in another group
+		return &zzGraph{Tasks: []zzTask{
+			{Name: "R", Deps: []string{"P", "Q"}},
+			{Name: "P", Deps: []string{"S", "F"}},
+			{Name: "Q", Deps: []string{"S"}, Cmds: []zzCmd{probe}},
+			{Name: "F", Cmds: []zzCmd{probe}},
+			{Name: "S", Run: "once", Cmds: []zzCmd{probe}},
+		}}, []string{"R"}
 	case 3: // failure in a shared run-once task with a concurrent sibling
 		return &zzGraph{Tasks: []zzTask{
 			{Name: "R", Deps: []string{"A", "B"}, Cmds: []zzCmd{probe}},
@@ -843,6 +851,35 @@ func ZZ_C13_Guards() {
 	default:
 		zz.Assert(started && err == nil, "passing-guards-let-the-task-run")
 	}
+	if zz.Twin() {
+		zz.Assert(false, "twin")
+	}
+	zz.Reach("end")
+}
+
+// ZZ_C13_SharedGuard: a deduplicated (run: once) task whose guard fails is first reached as
+// a dependency next to a sibling that fails while the guard is still being evaluated (the
+// first caller's failure is swallowed by ignore_error on the root), and later through the
+// dependencies of a second task: the second caller must not start its commands either, and
+// the invocation fails, for every interleaving of the sibling's failure with the guard.
+func ZZ_C13_SharedGuard() {
+	g, roots, par := zzShape(6)
+	tf := g.build(func(id string) bool { return id == "F.0" })
+	st, _ := tf.Tasks.Get("S")
+	switch zz.Choose("guard", 2) {
+	case 0:
+		st.Preconditions = []*ast.Precondition{{Sh: zzPreText(), Msg: "no"}}
+		if zz.Native() { // slow enough for the sibling to fail meanwhile
+			st.Preconditions[0].Sh = "sleep 0.4; exit 1"
+		}
+	case 1:
+		st.Requires = &ast.Requires{Vars: []*ast.VarsWithValidation{{Name: "NEEDED"}}}
+	}
+	zzPreFail = true
+	tr, err := zzExec(g, tf, zzRunOpts{Parallel: par}, roots...)
+	zz.Assert(zzCount(tr, "S", "S.0") == 0, "failed-guard-runs-no-command-of-the-task")
+	zz.Assert(zzCount(tr, "S", "Q.0") == 0, "failed-guard-of-a-shared-task-stops-every-caller")
+	zz.Assert(err != nil, "failed-guard-fails-the-invocation")
 	if zz.Twin() {
 		zz.Assert(false, "twin")
 	}
